@@ -11,9 +11,17 @@ def sh(cmd, cwd=None):
     return p.returncode, p.stdout
 
 snap = "/tmp/verif-regress"
-sh(f"rsync -a --delete /verif/ {snap}/")
+sh(f"rsync -a --delete --exclude sim/target /verif/ {snap}/")
+# REGRESS_REPO=<path>: use a scratch worktree of /repo's HEAD there instead of /repo itself
+# (so /repo stays free for other work); the private simulator copy is pointed at it.
+REPO = os.environ.get("REGRESS_REPO", "/repo")
+if REPO != "/repo":
+    sh(f"git -C /repo worktree remove --force {REPO}; rm -rf {REPO}; git -C /repo worktree prune")
+    rc, out = sh(f"git -C /repo worktree add --detach {REPO} HEAD")
+    assert rc == 0, out
+    sh(f"sed -i 's|path = \"/repo\"|path = \"{REPO}\"|' {snap}/sim/Cargo.toml")
 ids = sys.argv[1:] or sorted(os.path.basename(os.path.dirname(p)) for p in glob.glob("/verif/seeded/*/meta.json"))
-rc, out = sh("git -C /repo status --porcelain")
+rc, out = sh(f"git -C {REPO} status --porcelain")
 assert out.strip() == "", "repo not clean"
 for sid in ids:
     d = f"/verif/seeded/{sid}"
@@ -21,7 +29,7 @@ for sid in ids:
     props = [r["cmd"].split()[1] for r in meta.get("ran", [])] or [meta["breaks_property"]]
     if meta["breaks_property"] not in props:
         props.insert(0, meta["breaks_property"])
-    rc, out = sh(f"git -C /repo apply {d}/patch.diff")
+    rc, out = sh(f"git -C {REPO} apply {d}/patch.diff")
     assert rc == 0, (sid, out)
     res = []
     try:
@@ -33,7 +41,7 @@ for sid in ids:
             res.append({"property": p, "exit": rc, "first": first, "wall_s": round(time.time() - t0, 1)})
             print(sid, p, rc, first, flush=True)
     finally:
-        sh("git -C /repo checkout -- .")
+        sh(f"git -C {REPO} checkout -- .")
     meta["regress"] = res
     meta["caught_by"] = [r["property"] for r in res if r["exit"] == 1]
     json.dump(meta, open(f"{d}/meta.json", "w"), indent=1)
@@ -46,5 +54,7 @@ for p in sorted(glob.glob("/verif/seeded/*/meta.json")):
     missed = ", ".join(r["property"] for r in reg if r["exit"] == 0)
     first = next((r["first"] for r in reg if r["exit"] == 1 and r["first"]), "")
     rows.append(f"| {m['seed_id']} | {m['breaks_property']} | {what} | {caught}" + (f" (not by {missed})" if missed else "") + f" | {first} |")
+if REPO != "/repo":
+    sh(f"git -C /repo worktree remove --force {REPO}; rm -rf {REPO}; git -C /repo worktree prune")
 open("/verif/seeded/TABLE.md", "w").write("\n".join(rows) + "\n")
 print("\n".join(rows))
